@@ -22,13 +22,14 @@ def main():
     ap.add_argument("--extra", default="")
     ap.add_argument("--seeds", default="0,1")
     ap.add_argument("--src", default="/tmp/mut/out")
+    ap.add_argument("--offset", type=int, default=0, help="added to k for the kept id (second round: 2)")
     a = ap.parse_args()
     for k in (1, 2, 3):
         d = os.path.join(a.src, a.pid)
         patch, demo, note = (os.path.join(d, f"{n}{k}.{e}") for n, e in (("change", "diff"), ("demo", "py"), ("note", "txt")))
         if not (os.path.exists(patch) and os.path.exists(demo)):
             continue
-        out = os.path.join(V, "seeded", f"{a.pid}-{k}")
+        out = os.path.join(V, "seeded", f"{a.pid}-{k + a.offset}")
         os.makedirs(out, exist_ok=True)
         shutil.copy(patch, os.path.join(out, "patch.diff"))
         shutil.copy(demo, os.path.join(out, "demo.py"))
@@ -55,7 +56,7 @@ def main():
             "caught_by": [c for c, v in res["checks"].items() if v["fired"]],
         }
         json.dump(meta, open(os.path.join(out, "meta.json"), "w"), indent=1)
-        print(f"{a.pid}-{k}: confirmed={confirmed} caught_by={meta['caught_by']} "
+        print(f"{a.pid}-{k + a.offset}: confirmed={confirmed} caught_by={meta['caught_by']} "
               f"outcomes={ {c: v['outcome'] for c, v in res['checks'].items()} }")
         for c, v in res["checks"].items():
             for key in v["keys"][:3]:
